@@ -7,7 +7,15 @@ from fractions import Fraction
 
 def kv_of(line):
     toks = line.strip().split(" ")
-    return toks[0], dict(t.split("=", 1) for t in toks[1:] if "=" in t)
+    kv = dict(t.split("=", 1) for t in toks[1:] if "=" in t)
+    if kv.get("trimq") == "1" and kv.get("QRY"):
+        # the operation trims the query first (as the program does with every query it reads): the oracles judge the
+        # result against the trimmed molecule — first label at 0, length last - first + 1, no label-number offset
+        a, b, c, d = kv["QRY"].split(":")
+        ps = [int(x) for x in d.split(",")] if d else []
+        if ps:
+            kv["QRY"] = f"{a}:{ps[-1] - ps[0] + 1}:0:{','.join(str(p - ps[0]) for p in ps)}"
+    return toks[0], kv
 
 
 def ints(s):
@@ -28,6 +36,8 @@ def oracle_segs(line, out):
     for t in out.split(" "):
         a, sc = t.split(":")
         i, j = a.split("-")
+        if "/" in sc:
+            return f"(c) segment {i}-{j} is reported with score {sc} (in units of 1/den), which is not the sum of its members"
         rngs.append((int(i), int(j), int(sc)))
     prev_stop = None
     for (i, j, sc) in rngs:
@@ -1081,6 +1091,32 @@ def oracle_resolverows(line, out):
             return "a joined row is not a one-to-one collinear matching"
         if not set(pj) <= set(pa) | set(pb):
             return "a joined row has a pair that is in neither part"
+    # completeness: the two rows of a query that are eligible (same reference, same strand, gap within maxDifference) and
+    # whose join is a valid matching (decided by the real join of just these two rows) must come out joined, whatever other
+    # rows are in the list and wherever they stand
+    byq = {}
+    for (k, p), r in zip(parsed, rows):
+        byq.setdefault(k["q"], []).append((k, r))
+    for q, items in byq.items():
+        if len(items) != 2:
+            continue
+        (a, ra), (b, rb) = items
+        if a["r"] != b["r"] or a["rev"] != b["rev"]:
+            continue
+        gap = abs(max(int(a["rs"]), int(b["rs"])) - min(int(a["re"]), int(b["re"])))
+        if gap > diff:
+            continue
+        if any(parse_row_kv(jt, "~")[0]["q"] == q for jt in joined):
+            continue
+        try:
+            import realops
+            pstr = " ".join(f"{k}={kv[k]}" for k in ("sp", "dp", "su", "md", "ms", "bs"))
+            jr = realops.real_exec(f"JOINROWS {pstr} A={ra} B={rb}")
+        except Exception:
+            continue
+        if jr.startswith("q="):
+            return (f"the two rows of query {q} are eligible for a join (same reference and strand, gap {gap} <= {diff}) and join to a valid "
+                    f"record on their own, but are left un-joined in this list")
     return None
 
 
@@ -1385,3 +1421,27 @@ def oracle_calls(line, out):
         if all(0 <= i for i in ints(kv.get("BP", ""))) and len(got) < want:
             return f"{want} breakage places have a gap difference in range, {len(got)} calls reported"
     return None
+
+
+def oracle_checkoverlap(line, out):
+    """C08 join eligibility: same orientation, same reference, reference gap |max(starts) - min(ends)| <= maxDifference"""
+    op, kv = kv_of(line)
+    if out.startswith("ERR"):
+        return f"exception {out}"
+    (a, _), (b, _) = parse_row_kv(kv["A"], "~"), parse_row_kv(kv["B"], "~")
+    gap = abs(max(int(a["rs"]), int(b["rs"])) - min(int(a["re"]), int(b["re"])))
+    want = a["rev"] == b["rev"] and a["r"] == b["r"] and gap <= int(kv["diff"])
+    if (out == "1") != want:
+        return (f"rows {'declared' if out == '1' else 'not declared'} joinable: reference gap {gap}, maxDifference {kv['diff']}, "
+                f"same strand {a['rev'] == b['rev']}, same reference {a['r'] == b['r']}")
+    return None
+
+
+def oracle_getseq(line, out):
+    """C16 for `OpticalMap.getSequence`: the vector of THIS molecule's labels (reversed on the reverse strand)"""
+    op, kv = kv_of(line)
+    if out.startswith("ERR"):
+        return None if not kv["M"].split(":")[3] else f"exception {out}"
+    pos = kv["M"].split(":")[3]
+    fwd = out[::-1] if kv["rev"] == "1" else out
+    return oracle_seq(f"SEQ res={kv['res']} blur={kv['blur']} start={kv['start']} stop={kv['stop']} POS={pos}", fwd)
